@@ -269,8 +269,16 @@ def gen_case(draw):
                     'as_list': draw(st.booleans()), 'sub': draw(st.sampled_from([False, False, True])), 'text': draw(sentence(ascii_only=not glob))}
         aff = dsl.literal_strategy(('meta',), 1, 4)
         singles = st.lists(st.sampled_from(list('-.,_^]\\[a+|')), min_size=2, max_size=4, unique=True)      # several one-character affixes
-        return {'mode': 'affix', 'cls': cls, 'is_global': glob, 'affixes': draw(st.one_of(st.lists(aff, min_size=1, max_size=2), singles, singles)),
-                'as_list': draw(st.booleans()), 'w1': draw(st.sampled_from(['ab', 'x', 'Z9'])), 'w2': draw(st.sampled_from(['yz', 'b', '_1']))}
+        affixes = draw(st.one_of(st.lists(aff, min_size=1, max_size=2), singles, singles))
+        # further entries *derived* from an earlier one (its escaped spelling, a case variant, doubled, reversed, a proper prefix, itself
+        # again): any step that compares or de-duplicates the caller's strings in some normalised form confuses exactly these
+        for k in draw(st.lists(st.integers(0, 5), max_size=2)):
+            a = affixes[draw(st.integers(0, len(affixes) - 1))]
+            d = [re.escape(a), a.swapcase(), a + a, a[::-1], a[:-1], a][k]
+            if d:
+                affixes = affixes + [d]
+        return {'mode': 'affix', 'cls': cls, 'is_global': glob, 'affixes': affixes,
+                'as_list': draw(st.booleans()) or len(affixes) > 1, 'w1': draw(st.sampled_from(['ab', 'x', 'Z9'])), 'w2': draw(st.sampled_from(['yz', 'b', '_1']))}
     bad = st.sampled_from(sorted(BAD)).map(lambda k: ['bad', k])
     target = draw(st.sampled_from(['Numeral', 'Word']))
     if target == 'Numeral':
